@@ -177,7 +177,10 @@ def linear2dB(valueInLinear: NumberOrArray) -> NumberOrArray:
     >>> linear2dB(1000)
     30.0
     """
-    return 10.0 * np.log10(valueInLinear)  # type: ignore
+    # Note: the logarithm of a numpy integer of 8 (16) bits would be computed
+    # in half (single) precision
+    return 10.0 * np.log10(np.asarray(valueInLinear,
+                                      dtype=float))  # type: ignore
 
 
 def dBm2Linear(valueIndBm: NumberOrArray) -> NumberOrArray:
